@@ -173,7 +173,7 @@ def replay_case(h, case, strict=True, check_ops=True, check_parse=True):
                     "detail": {"spec_ops": repr(so)[:1500], "impl_ops": repr(io)[:1500]}}
         # positions: every op of statement j sits on line j (one statement per line)
         for o_spec, o_impl, p in zip(so, op["ops"], case["pos"]):
-            if o_impl.get("ln") != p:
+            if p != 0 and o_impl.get("ln") != p:
                 return {"status": "violation", "key": "oppos", "text": text, "kind": "oppos",
                         "detail": {"op": repr(o_spec), "line": o_impl.get("ln"), "stmt": p}}
     return res
